@@ -17,10 +17,16 @@
      (check (constraint ..) dict)                           -> (ok true|false) | (err E)
      (synth T (cfactor ..) (constraint ..) fuel oracle (trial ..))
                                                             -> (ok ((dict a) ..) log) | (err E)
+     (verdicts T trial (cfactor ..) (constraint ..) a n oracle)
+                                                            -> (v ..) for attempts a .. a+n-1,
+                                                               v = accept | reject | (raise E)   [ContinuousLive.attempt]
+     (scan T trial (cfactor ..) (constraint ..) fuel a oracle)
+                                                            -> (ok dict a') | (err E)            [ContinuousLive.scan]
    Output: input = value | (win ((k value) ..)) | (wins ((k value) ..) ..);
            log = (("name" (input ..) value) ..). *)
 open Wire
 module C = Continuous
+module CL = ContinuousLive
 
 let s_of x = explode (str_of_sexp x)
 let value_of = function
@@ -116,4 +122,18 @@ let () =
     show_res (fun (ms, log) ->
         show_list (fun (d, a) -> "(" ^ show_dict d ^ " " ^ show_nat a ^ ")") ms ^ " " ^ show_log log)
       (C.synthesize_post (gen_of_oracle ti orc) (nat_of_int ti) (list_of_sexp cfactor_of fs)
-         (list_of_sexp constraint_of cs) (nat_of_sexp fuel) (list_of_sexp dict_of trialss)) | _ -> "!args")
+         (list_of_sexp constraint_of cs) (nat_of_sexp fuel) (list_of_sexp dict_of trialss)) | _ -> "!args");
+  register "verdicts" (function [t; trial; fs; cs; a; n; orc] ->
+    let ti = int_of_sexp t in
+    let att = CL.attempt (gen_of_oracle ti orc) (nat_of_int ti) (dict_of trial) (list_of_sexp cfactor_of fs)
+        (list_of_sexp constraint_of cs) in
+    let a0 = int_of_sexp a in
+    show_list (fun k -> match att (nat_of_int (a0 + k)) with
+        | CL.Accept _ -> "accept" | CL.Reject -> "reject" | CL.Raise e -> "(raise " ^ show_err e ^ ")")
+      (Stdlib.List.init (int_of_sexp n) (fun k -> k)) | _ -> "!args");
+  register "scan" (function [t; trial; fs; cs; fuel; a; orc] ->
+    let ti = int_of_sexp t in
+    let att = CL.attempt (gen_of_oracle ti orc) (nat_of_int ti) (dict_of trial) (list_of_sexp cfactor_of fs)
+        (list_of_sexp constraint_of cs) in
+    show_res (fun (d, a') -> show_dict d ^ " " ^ show_nat a')
+      (CL.scan att (nat_of_sexp fuel) (nat_of_sexp a)) | _ -> "!args")
